@@ -95,7 +95,7 @@ if height == 1 or width == 1:
     if inside[y][x] is True: solver.ensure(False)
 elif inside[y][x] is True: ...
 ```
-`fixed = false` is the code as it stands (IndexError on such boards). -/
+`fixed = false` is the code before the repair (IndexError on such boards; kept for replays). -/
 def insideCs' (fixed : Bool) (pb : Problem) (isInside : PyV) (p : Nat × Nat) : Py (List Expr) :=
   if fixed && (pb.height == 1 || pb.width == 1) then do
     let y : Int := p.1
@@ -118,6 +118,7 @@ def programWith (prim : Bool) (pb : Problem) (fixed : Bool := false) : Py Puzzle
   .ok { decls := s.decls ++ List.replicate ((h - 1) * (w - 1)) .bool,
         cs := s.cs ++ c1.flatten ++ c2.flatten ++ c3.flatten, keys := keys }
 
-def program (pb : Problem) : Py PuzzleProg := programWith false pb
+/-- The module as it stands (line-board repair 074ebe4 included). -/
+def program (pb : Problem) : Py PuzzleProg := programWith false pb true
 
 end Cspuz.Puzzles.CastleWall
